@@ -21,6 +21,10 @@ ENTRIES = {
   text="Lean theorems about the hand-written accessor model: linearity of the unit functions; accessor = read of the permanent conversion for ALL argument strings (pressure: any valid labels; loading: stored physical basis) with equal refusal classes; inverse interpretation of foreign-unit inputs; branch selection = filter in stored order; limits = inclusive filter with Python's truthiness rule; split rule = first maximum (label-free by type); linear interpolation: exact at knots, chord between, refused outside. Witnesses for the S5 family proved by kernel evaluation.",
   note=TB + "Partial: for isotherms stored as fraction/percent the accessor theorem holds only without a material change (S5a-g known findings, witnesses in Lean); scipy interp1d is validated only for kind='linear'; model tied by correspondence on sampled representation pairs. S6 fixed.",
   technique="Lean 4 proof about a hand-written accessor model, model/implementation correspondence incl. malformed arguments, SI-oracle failing-input search"),
+ "C04": dict(
+  text="Lean theorems about the cache logic of a point isotherm (hand-written model of the rebuild condition of loading_at / pressure_at / spreading_pressure_at): a query returns what an interpolator built for exactly the requested (branch, kind, fill) returns whatever was cached; hence, by induction over histories, the outcome of any modelled query after ANY sequence of queries equals its outcome on a fresh object; a cached interpolator is only used under an equal key. Purity and history independence of everything else (exports, 18 characterisation / fitting / IAST entry points, the shared thermodynamic state, module-level kernel and reference-curve caches) is established on real objects: every call is compared with the same call on a fresh object and every argument is snapshotted before and after.",
+  note=TB + "Partial: only the interpolator-cache logic is modelled and proved; that the characterisation / fitting / IAST routines and the CoolProp state handling neither write to their arguments nor depend on history is OBSERVED on seeded sequences plus targeted pairs (cache keys differing in one component) and triples (thermodynamic accessors at two temperatures), not proved. S7, S8 fixed.",
+  technique="Lean 4 proof (cache transparency by induction over query histories) + differential execution against fresh objects with deep snapshots"),
  "C10": dict(
   text="Lean theorems over the reals about the functions regenerated from modelling/*.py on every run (tie lemmas Gen = published equation, then per model: pressure(loading p) = p and converse, zero point incl. the 0/0 point of the quadratic inverses, sign, strict monotonicity on the validity range, saturation bound, Henry limit; injectivity of the pressure-explicit models as the specification of the numerical inverses). Float copies of the same generated text are run against the Python originals; the property oracle runs on the real classes.",
   note=TB + "Partial where the truth is numerical: scipy.optimize inverses (TSLangmuir, Temkin, Jensen-Seaton, Virial, VST) are specified by residual and checked only where the library reports success; IEEE rounding per the tolerance table. BET/GAB inverse needs N != C (C != 1). Known finding S24 (Virial.loading returns a non-root with success); S1 fixed.",
